@@ -41,6 +41,21 @@ public class VOverrides {
     public static Value sha1(final Value m) { return tuple(md("SHA-1", bytes(m))); }
     @TLAPlusOperator(identifier = "MD5", module = "VPrims", warn = false)
     public static Value md5(final Value m) { return tuple(md("MD5", bytes(m))); }
+    /* digest of the first n bytes of the periodic pattern message used for very long inputs (harness/drv_crypto.c hashbig):
+       byte i = P[i mod 1048573], P[j] = (131 j + 7 (j >> 8) + 13) mod 256 */
+    @TLAPlusOperator(identifier = "DigestOfPattern", module = "VPrims", warn = false)
+    public static Value digestOfPattern(final Value alg, final Value n) {
+        try {
+            String a = str(alg);
+            MessageDigest d = MessageDigest.getInstance(a.equals("sha256") ? "SHA-256" : a.equals("sha1") ? "SHA-1" : "MD5");
+            final int period = 1048573;
+            byte[] pat = new byte[period];
+            for (int j = 0; j < period; j++) pat[j] = (byte) ((131 * j + 7 * (j >> 8) + 13) & 0xff);
+            long left = ((IntValue) n).val;
+            while (left > 0) { int k = (int) Math.min(left, period); d.update(pat, 0, k); left -= k; }
+            return tuple(d.digest());
+        } catch (Exception e) { throw new RuntimeException(e); }
+    }
     @TLAPlusOperator(identifier = "SHA256HexOfHex", module = "VPrims", warn = false)
     public static Value sha256hex(final Value m) { return sv(hex(md("SHA-256", unhex(str(m))))); }
     @TLAPlusOperator(identifier = "AESEncryptBlock", module = "VPrims", warn = false)
